@@ -77,3 +77,66 @@ inline void for_each_state(const Args& a, Recorder& rec, const std::vector<PlanI
 }
 
 } // namespace mx
+
+namespace mx {
+
+// ---- soundness of the partition produced by the symmetry analysis, judged on the REFERENCE operators (C07's predicates;
+//      other checks use it to skip partitions that C07 reports, so that one defect is one report)
+struct Soundness { bool address_ok, h_block_diag, ops_single_target; std::string why; bool ok() const { return address_ok && h_block_diag && ops_single_target; } };
+
+inline std::vector<int> block_of_labels(const Pipe& P) { std::vector<int> b(P.D); for (unsigned long s = 0; s < (unsigned long)P.D; ++s) b[s] = P.S->getBlockNumber(QuantumState(s)); return b; }
+
+inline Soundness soundness(const Pipe& P, const refed::Mat& Href, bool quadratic = true) {
+    Soundness r; r.address_ok = r.h_block_diag = r.ops_single_target = true; int D = P.D, M = P.M;
+    std::vector<int> cnt(D, 0); long total = 0;
+    for (BlockNumber b = 0; b < P.S->NumberOfBlocks(); b++) { const std::vector<FockState>& st = P.S->getFockStates(b); total += st.size();
+        for (size_t k = 0; k < st.size(); ++k) { unsigned long s = st[k].to_ulong(); if (s >= (unsigned long)D) { r.address_ok = false; r.why = "label out of range"; continue; } cnt[s]++;
+            if ((int)P.S->getBlockNumber(QuantumState(s)) != (int)b || P.S->getInnerState(QuantumState(s)) != k) { r.address_ok = false; r.why = "address mismatch for label " + std::to_string(s); } } }
+    for (int s = 0; s < D; ++s) if (cnt[s] != 1) { r.address_ok = false; r.why = "label " + std::to_string(s) + " appears " + std::to_string(cnt[s]) + " times"; }
+    if (total != D) { r.address_ok = false; r.why = "block sizes do not add up to 2^M"; }
+    if (!r.address_ok) return r;
+    std::vector<int> blk = block_of_labels(P);
+    for (int i = 0; i < D; ++i) for (int j = 0; j < D; ++j) if (std::abs(Href(i, j)) > 1e-12 && blk[i] != blk[j]) { r.h_block_diag = false; r.why = "H connects labels " + std::to_string(j) + "->" + std::to_string(i) + " of different blocks"; return r; }
+    auto single = [&](const refed::Mat& O, const std::string& name) {
+        std::map<int,int> target;
+        for (int j = 0; j < D; ++j) for (int i = 0; i < D; ++i) if (std::abs(O(i, j)) > 1e-12) {
+            auto it = target.find(blk[j]); if (it == target.end()) target[blk[j]] = blk[i]; else if (it->second != blk[i]) { r.ops_single_target = false; r.why = name + " maps block " + std::to_string(blk[j]) + " into more than one block"; return; } }
+    };
+    for (int i = 0; i < M && r.ops_single_target; ++i) { single(refed::c_op(M, i), "c_" + std::to_string(i)); single(refed::cdag_op(M, i), "c+_" + std::to_string(i)); }
+    if (quadratic) for (int i = 0; i < M && r.ops_single_target; ++i) for (int j = 0; j < M && r.ops_single_target; ++j) single(refed::cdag_op(M, i) * refed::c_op(M, j), "c+_" + std::to_string(i) + "c_" + std::to_string(j));
+    return r;
+}
+
+// ---- candidate integrals of motion (all diagonal in the Fock basis) ---------------------------------------------------
+struct Candidate { std::string name; Operator op; };
+inline std::vector<Candidate> candidates(const Pipe& P) {
+    std::vector<Candidate> C; int M = P.M; using namespace OperatorPresets;
+    auto add = [&](const std::string& n, const Operator& o) { Candidate c; c.name = n; c.op = o; C.push_back(c); };
+    { Operator o; for (int i = 0; i < M; ++i) o += n(i); add("N", o); }
+    bool all2 = true; for (auto& s : P.sh.sites) if (s.spin != 2) all2 = false;
+    if (all2) { Operator o; for (int i = 0; i < M; ++i) { IndexClassification::IndexInfo info = P.IC->getInfo(i); o += n(i) * MelemType(info.Spin == up ? 0.5 : -0.5); } add("Sz", o); }
+    for (auto& s : P.sh.sites) { Operator o; for (int i = 0; i < M; ++i) if (P.IC->getInfo(i).SiteLabel == s.label) o += n(i); add("N_site[" + s.label + "]", o); }
+    { Operator o; bool any = false; for (int i = 0; i < M; ++i) if (P.IC->getInfo(i).Orbital == 0) { o += n(i); any = true; } if (any) add("N_orb0", o); }
+    for (int z = 0; z < 2; ++z) { Operator o; bool any = false; for (int i = 0; i < M; ++i) if (P.IC->getInfo(i).Spin == z) { o += n(i); any = true; } if (any) add(z ? "N_up" : "N_down", o); }
+    add("n_0", n(0));
+    if (M >= 2) add("n_0*n_1", n(0) * n(1));
+    { Operator o; for (int i = 0; i < M; ++i) o += n(i); add("N^2", o * o); }
+    if (M >= 3) { Operator o = n(0) * MelemType(0.1) + n(1) * MelemType(0.2) + n(2) * MelemType(0.3); add("0.1n_0+0.2n_1+0.3n_2", o); }
+    return C;
+}
+
+} // namespace mx
+
+namespace mx {
+enum StageRes { ST_OK = 0, ST_ANALYSIS_FAILED, ST_UNSOUND, ST_C04, ST_NONHERM };
+// lattice -> indices -> symbolic H -> symmetry analysis -> states, classifying what belongs to other properties
+inline StageRes stage_states(Ctx& c, Recorder& rec, SymMode mode, const std::vector<Operator>* custom = 0, bool need_quadratic = true) {
+    try {
+        if (!ctx_begin(c, mode, custom)) { rec.skipped++; rec.counters[c.skip_reason == "non-hermitian" ? "skipped_non_hermitian" : "skipped_c04_mismatch"]++; return c.skip_reason == "non-hermitian" ? ST_NONHERM : ST_C04; }
+    } catch (std::exception& e) { rec.skipped++; rec.counters["skipped_analysis_threw(C07)"]++; return ST_ANALYSIS_FAILED; }
+    Soundness s = soundness(c.P, c.Href, need_quadratic);
+    if (!s.ok()) { rec.skipped++; rec.counters["skipped_unsound_partition(C07)"]++; return ST_UNSOUND; }
+    return ST_OK;
+}
+inline const char* mode_name(SymMode m) { return m == SYM_DEFAULT ? "default" : m == SYM_IGNORE ? "ignored" : "custom"; }
+} // namespace mx
